@@ -117,8 +117,9 @@ def check(R, F, P, cfg):
             incs = p.calls(CM + "increment_counter")
             inc_ok = any(a[0] == "bool" and "is_err" in fmt(a[1]) and "increment_counter" in fmt(a[1]) and t is False for a, t in p.literals)
             alive = [x for x in p.events if x.ci["k"] == "call" and x.ci["npath"] in ("cc::Cc::<T>::mark_alive", "cc::remove_from_list")]
-            if zero is not False or len(incs) != 1 or not inc_ok or not alive:
-                bad.append("Some on [%s]" % p.describe()[:140])
+            same_alloc = fmt(rv).count("self.cc") >= 1 and (len(incs) != 1 or fmt(obj_of(S.args_of(incs[0])[0])).endswith("self.cc"))
+            if zero is not False or len(incs) != 1 or not inc_ok or not alive or not same_alloc:
+                bad.append("Some on [%s] (returns %s)" % (p.describe()[:140], fmt(rv)[:80]))
         else:
             if zero is not True or p.calls(CM + "increment_counter"):
                 bad.append("None on [%s]" % p.describe()[:140])
